@@ -1,7 +1,7 @@
 (* C04 — property theorems only (the regenerated-table theorems are in C04/TableProofs.v, re-proved on
    every run against the table extracted from the current Go source).  The binder model is the REPAIRED
    Lambda.Call (repo_fixes C04-1 .. C04-9). *)
-From C04 Require Import Model Spec Proofs ProofsRestKey Arity.
+From C04 Require Import Model Spec Proofs ProofsRestKey ProofsEvals Arity.
 Open Scope list_scope.
 Open Scope N_scope.
 
@@ -182,3 +182,55 @@ Print Assumptions C04_bad_keys_rejected.
 Theorem C04_repaired_witnesses : forallb repaired repaired_witnesses = true.
 Proof. exact repaired_witnesses_ok. Qed.
 Print Assumptions C04_repaired_witnesses.
+
+(* (15) WHICH DEFAULT FORMS ARE EVALUATED (round 3).  For every lambda list accepted by the parser with distinct
+   names and every argument vector inside the guard, pass 2 of the binder model evaluates exactly the default
+   forms the specification names - the &optional parameters beyond the supplied positional arguments, the &key
+   parameters whose keyword is not among the key arguments, every &aux parameter - in that order, and none when
+   the call is rejected.  (evals_M / evals_S list the parameters whose form is evaluated.) *)
+Theorem C04_default_forms_evaluated_when_absent : forall ds l args,
+  parse_ll ds = Some l -> NoDup (params ds) -> rest_plain ds = true -> in_domain ds args = true ->
+  evals_M ds args = evals_S l args.
+Proof. exact evals_meet_spec. Qed.
+Print Assumptions C04_default_forms_evaluated_when_absent.
+
+(* (16) in property terms: the default form of an &optional parameter that got a positional argument is not
+   evaluated ... *)
+Theorem C04_supplied_optional_default_not_evaluated : forall ds l args j x d,
+  parse_ll ds = Some l -> NoDup (params ds) -> rest_plain ds = true -> in_domain ds args = true ->
+  nth_error (l_opt l) j = Some (x, d) -> (List.length (l_req l) + j < List.length args)%nat ->
+  ~ In x (evals_M ds args).
+Proof. exact supplied_optional_not_evaluated. Qed.
+Print Assumptions C04_supplied_optional_default_not_evaluated.
+
+(* (17) ... nor that of a &key parameter whose keyword is among the key arguments *)
+Theorem C04_supplied_key_default_not_evaluated : forall ds l args ks k d v,
+  parse_ll ds = Some l -> NoDup (params ds) -> rest_plain ds = true -> in_domain ds args = true ->
+  l_key l = Some ks -> In (k, d) ks -> first_pair k (pairs_of l args) = Some v ->
+  ~ In k (evals_M ds args).
+Proof. exact supplied_key_not_evaluated. Qed.
+Print Assumptions C04_supplied_key_default_not_evaluated.
+
+(* (18) non-vacuity for (15)-(17): (a &optional (b 5) (c 6) &key (k 7) (m 8) &aux (x 9)) with 1, 2 and 3 positional
+   arguments, with :m, with :m and :k, too few arguments and an unknown key (rejected: nothing evaluated) *)
+Theorem C04_default_forms_examples :
+  let ds := [D 0; Mk POptional; {| d_name := PVar 1; d_def := Some 5%Z |}; {| d_name := PVar 2; d_def := Some 6%Z |};
+             Mk PKey; {| d_name := PVar 3; d_def := Some 7%Z |}; {| d_name := PVar 4; d_def := Some 8%Z |};
+             Mk PAux; {| d_name := PVar 5; d_def := Some 9%Z |}] in
+  evals_M ds [AInt 1%Z] = [1; 2; 3; 4; 5] /\
+  evals_M ds [AInt 1%Z; AInt 2%Z] = [2; 3; 4; 5] /\
+  evals_M ds [AInt 1%Z; AInt 2%Z; AInt 3%Z; AKw 4; AInt 0%Z] = [3; 5] /\
+  evals_M ds [AInt 1%Z; AInt 2%Z; AInt 3%Z; AKw 4; AInt 0%Z; AKw 3; ANil] = [5] /\
+  evals_M ds [] = [] /\ evals_M ds [AInt 1%Z; AInt 2%Z; AInt 3%Z; AKw 9; AInt 0%Z] = [] /\
+  in_domain ds [AInt 1%Z; AInt 2%Z; AInt 3%Z; AKw 4; AInt 0%Z] = true.
+Proof. exact evals_examples. Qed.
+Print Assumptions C04_default_forms_examples.
+
+(* (19) the self-check of the correspondence (Corr.check_case code 3) in its round-3 form - outcome and evaluated
+   default forms - can never fire inside the guard *)
+Theorem C04_self_check_silent : forall ds l args traced,
+  parse_ll ds = Some l -> NoDup (params ds) -> rest_plain ds = true -> in_domain ds args = true ->
+  outcome_eqv (reorder ds (bind_S l args)) (bind_M ds args) &&
+  list_eqb N.eqb (Corr.traced_only traced (evals_S l args)) (Corr.traced_only traced (evals_M ds args)) = true.
+Proof. exact self_check_silent. Qed.
+Print Assumptions C04_self_check_silent.
